@@ -178,7 +178,10 @@ class G:
                 eo = None
                 if r.random() < 0.5:
                     eo = sorted(r.sample(range(m), r.randint(1, m)))
-                self.add({"kind": "combine_latest", "ups": ups, "emit_on": eo}, "X")
+                nd = {"kind": "combine_latest", "ups": ups, "emit_on": eo}
+                if eo is not None:
+                    nd["emit_on_form"] = r.choice(["list", "int", "stream", "streams", "mixed"] if len(eo) == 1 else ["list", "streams", "mixed"])
+                self.add(nd, "X")
             else:
                 self.add({"kind": "zip_latest", "ups": ups}, "X")
         elif k == "sink":
